@@ -313,7 +313,9 @@ def p_c02_c03(tr, V, st):
             if verb in (b'on', b'off', b'cycle', b'reset', b'flash', b'unflash'):
                 st['C02 power replies'] += 1
                 bad = [it for it in infos if it[1] in (308, 309)]
-                if code == 102 and bad: V.append(dict(sig='C02 success despite reported failure', fd=fd, line=repr(s), reply=repr(g)[:300]))
+                # a 308 (the action failed) always ends in 210; a 309 (one plug's result was unsuccessful) does unless the action was
+                # started over after a reconnect and the node's result was successful then: checked with the device history in p_c02_retry
+                if code == 102 and any(it[1] == 308 for it in bad): V.append(dict(sig='C02 success despite reported failure', fd=fd, line=repr(s), reply=repr(g)[:300]))
                 if code == 210 and not bad: V.append(dict(sig='C02 error code without a line naming device or node', fd=fd, line=repr(s), reply=repr(g)[:300]))
                 if code not in (102, 210): V.append(dict(sig='C02 unexpected terminal for a power request', fd=fd, code=code, line=repr(s)))
                 for it in bad:
@@ -461,7 +463,7 @@ def p_c11(tr, V, st):
             for it in g:
                 if it[1] == 303:
                     n = it[2].partition(b': ')[0]
-                    for x in (expand_hl(n) if b'[' in n else [n]):
+                    for x in (expand_hl(n) if (b'[' in n or b',' in n) else [n]):
                         if x not in targets: V.append(dict(sig='C11 303 for a node outside the request', fd=fd, node=repr(x), line=repr(s)))
                 if it[1] == 309:
                     n = it[2].partition(b': ')[0]
@@ -635,6 +637,33 @@ def align(mine, replies, com_of, when=None):
 VERB2COM = {b'on': 7, b'off': 10, b'cycle': 13, b'reset': 16, b'flash': 23, b'unflash': 25}
 
 
+def p_c02_retry(tr, V, st):
+    """a power request answered 102 although a `309 node: text` line was sent for it: legitimate only if the node's device lost
+    its connection after that line was produced (the action is then run again from its first statement and the node's result
+    replaced); otherwise the unsuccessful result was ignored"""
+    reqs, _ = requests(tr)
+    cv = client_views(tr)
+    lastto = {fd: c['to'] for fd, c in tr[-1].clients.items()} if tr else {}
+    for fd, v in cv.items():
+        items, _ = split_out(v.cout + lastto.get(fd, b''))
+        replies = []; when = []; lp = line_passes(v.events)
+        for ln, g, complete, li in attribute(v.cin, items, with_index=True):
+            rq = parse_req(ln)
+            if complete and g and g[-1][1] in (102, 210, 103, 211): replies.append((rq, g[-1][1], g)); when.append(lp[li] if li < len(lp) else None)
+        mine = [r for r in reqs if r['fd'] == fd]
+        for r, (rq, code, g) in align(mine, replies, lambda v: VERB2COM.get(v), when):
+            if code != 102: continue
+            bad = [it for it in g if it[1] == 309]
+            if not bad: continue
+            st['C02 successful replies with a 309 line examined'] += 1
+            # any device connection lost inside the window?
+            lost = False
+            for p in tr[r['start']:r['end'] + 1]:
+                if any(d.get('conn') != 2 for d in p.devs.values()) or any(l[0] == 'close' and int(l[1]) >= 2000 for l in p.sys): lost = True
+            if not lost:
+                V.append(dict(sig='C02 success despite a reported unsuccessful result', at=r['end'], fd=fd, line=repr(rq[2]), reply=repr(g)[:300], start=r['start']))
+
+
 def p_c02_wire(tr, V, st):
     """a power request answered 102 really addressed every named node: between the request and its reply a line naming the
     node's plug (its name, a range containing it, or `*`) was written to the node's device"""
@@ -769,7 +798,7 @@ def p_m_c02(world):
                     for it in g[:-1]:
                         if it[1] == 303:
                             n, _, val = it[2].partition(b': ')
-                            for x in (expand_hl(n) if b'[' in n else [n]): shown[x] = val.strip()
+                            for x in (expand_hl(n) if (b'[' in n or b',' in n) else [n]): shown[x] = val.strip()
                         if it[1] == 302:
                             k, _, lst = it[2].partition(b':')
                             for x in (expand_hl(lst.strip()) if lst.strip() else []): shown[x] = k.strip()
